@@ -114,16 +114,17 @@ ADD_TEXT = {
     "C01": " Both tiers also run chunk size 1 over 1 029 and 65 537 bytes (chunk counts beyond 8 and 16 bits of the 24-bit field); quick has a depth-3 level over {1 byte, empty, chunk size + 1} x N/Z x plain/Salsa20.",
     "C03": " Root manifests additionally: unnamed records without NO_NAME_HASH, paths handed in only together with NO_NAME_HASH next to an ordinary block without a named file, and builder programs that remove a FileDataID again (first / middle / last record) before build.",
     "C05": " Index pre-states include a sorted section that ends exactly on a 64 KiB boundary (25 484 entries) next to the two that end just past one.",
-    "C06": " Disk-cache scenarios include a value at the cache's large-file size (16 MiB) on the plain instance and on the instance built with its background tasks. Every crash image that loads must also take the next save of the same kind and show it to the next instance.",
-    "C07": " Both tiers run every position of every artifact and cache histories of depth 5 (thorough 6); the cache subjects include the empty size class (a backing file with a header and no payload, an empty value put below a non-empty key).",
+    "C06": " Disk-cache scenarios include a value at the cache's large-file size (16 MiB) on the plain instance and on the instance built with its background tasks. Every crash image that loads must also take the next save of the same kind and show it to the next instance. (Session 4) plus the background-task instance with a one-second periodic sync (a configuration value nothing in the repository sets).",
+    "C07": " Both tiers run every position of every artifact and cache histories of depth 5 (thorough 6); the cache subjects include the empty size class (a backing file with a header and no payload, an empty value put below a non-empty key). (Session 4) The update-page artifact also comes completely full (21 entries: no empty slot ends the log).",
     "C09": " The quick tier runs the thorough bounds except the 256 MiB Salsa20 stream (16 MiB instead).",
     "C10": " Also: the memory cache built with its cleanup task (paused clock, tick), with statistics collection off, and expiry scripts - every script to depth 5 (thorough 6) over {put_short (900 ms, real time), put_hour, get, contains, reopen, wait} that starts with put_short, has one wait and observes after it, judged only where the measured times leave no doubt.",
-    "C11": " The entry-count and usage counters of MemoryCache and DiskCache are scheduling points too (every load / store / fetch_* / compare_exchange), and the lock wrappers model writer preference (a read() behind a waiting writer blocks), so a nested read on a wrapped lock is reported as a deadlock.",
+    "C11": " The entry-count and usage counters of MemoryCache and DiskCache are scheduling points too (every load / store / fetch_* / compare_exchange), and the lock wrappers model writer preference (a read() behind a waiting writer blocks), so a nested read on a wrapped lock is reported as a deadlock. (Session 4) One pass of the DiskCache background cleanup task is a scheduled task too: the cache is built with new_with_background_tasks on a private runtime with a paused clock, the task that executes `cleanup` advances that clock and polls the spawned task on its own thread, so the pass (index write lock, counter updates, unlinks) interleaves at every scheduling point with each foreground operation on the same key - from pre-states with an expired entry, a live entry, both, and three live entries over max_files = 2 (the pass evicts).",
+    "C12": " (Session 4) The core alphabet contains RESTART (at most one per history, never first): the cache object is dropped and a new MultiLayerCacheImpl is built on the same directories; the model empties its memory layers, keeps the disk layer's holdings and forgets which value had been the visible answer.",
     "C13": " (8) a TACT endpoint answering 200 with the full Content-Length and the body cut by the peer after every proper prefix.",
     "C15": " Both tiers run the full date grid, every ordered pair of misbehaving request classes and every request line; product names include letters and digits outside ASCII, build times lie on both sides of 2^31 and 2^32 seconds and in the year 9999 (thorough adds the years 2038, 2106, 2400 to the grid).",
     "C16": " A fifth encoding, z128k (128 KiB per letter, extremely compressible), runs with large diff-block sizes over strings of length <= 1 (thorough 2).",
-    "C18": " A wide part compacts sparse files whose first live span (2^31-4096 ... 2^32+2^31 bytes) is already in place and is followed by a gap and 100 live bytes: length, reported saving, the small span and both ends of the large one are compared.",
-    "C19": " The quick tier runs the thorough bounds.",
+    "C18": " A wide part compacts sparse files whose first live span (2^31-4096 ... 2^32+2^31 bytes) is already in place and is followed by a gap and 100 live bytes: length, reported saving, the small span and both ends of the large one are compared. (Session 4) The merge-plan grid has a headered segment size (2048 bytes: the 480-byte segment header plus payload; write positions 0, 480, 481, quarter points of the payload area, s-1, s) next to the header-less sizes 8 and 100.",
+    "C19": " The quick tier runs the thorough bounds. (Session 4) Two more subjects start from two files and three tags (a, b and a third tag that selects file 0), depth 5 (thorough 6): removals of a tag that is neither last nor second to last, followed by by-name operations.",
     "C20": " Also: the raw-key sequence on the disk cache built with its background tasks (an entry expired at once and an entry over max_files, each followed by a cleanup pass on a paused clock), and every ordered pair of distinct accepted endpoints (product segments differing only in _ - . / and case) through RibbitTactClient::query on one cache directory against a mock whose answers name the request target.",
 }
 ADD_NOTE = {
